@@ -415,3 +415,17 @@ def presentations(gens, radius):
                 out.append([elems[r] for r in rows])
         return out
     raise ValueError(radius)
+
+
+def in_group(p, gens, n):
+    """True iff the Hermitian Pauli p (with its sign) lies in the group generated by the
+    commuting independent Hermitian Paulis `gens` -- i.e. the state stabilised by `gens`
+    is a +1 eigenstate of p."""
+    rows = [herm(*r) for r in canon(gens, n)]
+    acc = p
+    for r in rows:
+        k = r[0] | (r[1] << n)
+        piv = k.bit_length() - 1
+        if ((acc[0] | (acc[1] << n)) >> piv) & 1:
+            acc = mul(acc, r)
+    return acc == (0, 0, 0)
